@@ -10,6 +10,7 @@ from . import rules_hist as RH
 from . import rules_terms as RT
 from . import rules_zones as RZ
 from . import rules_segments as RSG
+from . import rules_range as RR
 from .facts import AnchorMissing
 
 TRUSTED = [
@@ -472,6 +473,7 @@ def c01(ctx):
     ctx.floor("R9", len(pairs), 2, "zips in quantile routines")
     only = {("QuantileExt", "quantiles_axis_mut"), ("QuantileExt", "quantile_axis_mut"), ("Quantile1dExt", "quantile_mut"), ("Quantile1dExt", "quantiles_mut")}
     RG.rule_r6(ctx, prog, only=only)
+    RR.rule_r26_ranges(ctx, prog)
     # the neighbours looked up are the order statistics: bulk selection (proved, see C02) on the partition contract
     RSG.rule_r25_bulk_selection(ctx, prog)
     RSG.rule_r22_partition(ctx, prog)
